@@ -168,6 +168,10 @@ def config_keys(ctx):
 
 
 def run(ctx):
+    # no hidden state: what this property is about keeps nothing at module level between calls (memo tables keyed by less than
+    # the value depends on, caches of the outside world, counters) -- a verdict on one call must hold for every later call
+    from .. import rules as _rules
+    _rules.check_hidden_state(ctx, 'C20.8', ['bits.read_bytes', 'bits.write_bytes'])
     R = ctx.R
     fcfg, keys, other = config_keys(ctx)
     R.check("C20.4", "TABLE", fcfg, "Config.__init__ reads a fixed list of names with constant defaults", bool(keys) and not other,
@@ -312,8 +316,95 @@ def run(ctx):
             bad_reads.append((n.attr, n.lineno))
     R.check("C20.3", "PROV", fm, "configured options are read through `config`, never from `args`", not bad_reads,
             "main() reads configurable option(s) directly from args: %s" % bad_reads[:4], example="a value set only in the configuration file")
+    check_base_command(ctx, fm)
+    check_no_attribute_aliasing(ctx)
     check_load_config(ctx, keys)
     check_formats(ctx)
+
+
+def check_base_command(ctx, fm):
+    """The base command (no sub-command) converts: whatever the formats, its output is write_bytes(read_bytes(in_file,
+    input_format=config.input_format), out_file, output_format=config.output_format) -- unconditionally, and nothing else is
+    written. The branch is evaluated as a function of (args, config) with the two conversion functions opaque."""
+    R = ctx.R
+    branch = None
+    for n in ast.walk(fm.node):
+        if isinstance(n, ast.If):
+            t = n.test
+            neg = isinstance(t, ast.UnaryOp) and isinstance(t.op, ast.Not) and ast.unparse(t.operand) == "args.subcommand"
+            isnone = isinstance(t, ast.Compare) and ast.unparse(t.left) == "args.subcommand" and len(t.ops) == 1 and isinstance(t.ops[0], (ast.Is, ast.Eq)) and \
+                isinstance(t.comparators[0], ast.Constant) and t.comparators[0].value is None
+            if neg or isnone:
+                branch = n
+                break
+    R.check("C20.7", "PROV", fm, "base-command branch located (`if not args.subcommand`)", branch is not None, "main() has no branch for the base command")
+    if branch is None:
+        return
+    node3 = ast.FunctionDef(name="__base_command", args=ast.arguments(posonlyargs=[], args=[ast.arg(arg="args"), ast.arg(arg="config")], kwonlyargs=[], kw_defaults=[], defaults=[]),
+                            body=list(branch.body), decorator_list=[], returns=None, type_comment=None)
+    node3.type_params = []
+    ast.copy_location(node3, branch)
+    ast.fix_missing_locations(node3)
+    f3 = type(fm)(fm.module, node3, None)
+    ev = ctx.evaluator(opaque={"bits.read_bytes", "bits.write_bytes"})
+    s3 = ev.run(f3)
+    args_, conf = P("args"), P("config")
+    rb = [c for c in s3.calls if c[0] == "bits.read_bytes"]
+    wb = [c for c in s3.calls if c[0] == "bits.write_bytes"]
+    other = [c for c in s3.calls if c[0] not in ("bits.read_bytes", "bits.write_bytes") and (c[0].startswith("io:") or c[0].startswith("method:") or "write" in c[0] or "print" in c[0]) and
+             not c[0].startswith("method:debug") and not c[0].startswith("method:info")]
+
+    def arg(c, i, name):
+        return c[2].get(name) if name in c[2] else (c[1][i] if len(c[1]) > i else None)
+    ok = len(rb) == 1 and len(wb) == 1 and not other and not rb[0][4] and not wb[0][4]
+    if ok:
+        want_r = tm.app("bits.read_bytes", [T("attr", (args_, "in_file")), T("attr", (conf, "input_format"))], ty=tm.BYTES)
+        ok = tm.veq(arg(rb[0], 0, "file_"), T("attr", (args_, "in_file"))) and tm.veq(arg(rb[0], 1, "input_format"), T("attr", (conf, "input_format"))) and \
+            isinstance(arg(wb[0], 0, "data"), T) and arg(wb[0], 0, "data").op == "app" and arg(wb[0], 0, "data").args[0] == "bits.read_bytes" and \
+            tm.veq(arg(wb[0], 1, "file_"), T("attr", (args_, "out_file"))) and tm.veq(arg(wb[0], 2, "output_format"), T("attr", (conf, "output_format")))
+    exits = [e for e in s3.exits if not (e.kind == "return" and e.value is None and tm.land(list(e.guard)) is True)]
+    R.check("C20.7", "PROV", fm, "base command: write_bytes(read_bytes(in_file, config.input_format), out_file, config.output_format), unconditionally, nothing else written",
+            ok and not exits, "the base command does not always convert through read_bytes / write_bytes: %d read_bytes, %d write_bytes, other output %s, conditional exits %s" % (
+                len(rb), len(wb), [c[0] for c in other][:3], [tm.show(tm.land(list(e.guard)))[:80] for e in exits][:2]),
+            line=branch.lineno, example="equal input and output formats with an odd number of hex digits (`echo abc | bits`)")
+
+
+def check_no_attribute_aliasing(ctx):
+    """Config re-initialises itself from `vars(self)` overlaid with new values, so that keys it does not define are dropped.
+    That only works on a COPY: vars(self) IS the attribute dictionary, and updating it in place makes every unknown key an
+    attribute (shadowing methods such as `update`). Rule: in bits.config, the result of vars(self) / self.__dict__ is never
+    mutated -- it is copied (deepcopy / copy / dict(...) / {**...}) before anything is written to it."""
+    R = ctx.R
+    mod = ctx.prog.module("bits.config")
+    bad, n = [], 0
+    COPIERS = {"deepcopy", "copy", "dict"}
+
+    def is_attrs(e):
+        return (isinstance(e, ast.Call) and isinstance(e.func, ast.Name) and e.func.id == "vars" and len(e.args) == 1 and ast.unparse(e.args[0]) == "self") or \
+            (isinstance(e, ast.Attribute) and e.attr == "__dict__" and ast.unparse(e.value) == "self")
+    for fn in ast.walk(mod.tree):
+        if not isinstance(fn, ast.FunctionDef):
+            continue
+        aliases = set()
+        for st in ast.walk(fn):
+            if isinstance(st, ast.Assign) and is_attrs(st.value):
+                aliases |= {t.id for t in st.targets if isinstance(t, ast.Name)}
+            if is_attrs(st):
+                n += 1
+        for st in ast.walk(fn):
+            if isinstance(st, ast.Call) and isinstance(st.func, ast.Attribute) and st.func.attr in rules._MUTATING_METHODS | {"update", "__setitem__"}:
+                tgt = st.func.value
+                if is_attrs(tgt) or (isinstance(tgt, ast.Name) and tgt.id in aliases):
+                    bad.append((fn, st, ast.unparse(st)[:60]))
+            if isinstance(st, (ast.Assign, ast.AugAssign, ast.Delete)):
+                for t in (st.targets if isinstance(st, (ast.Assign, ast.Delete)) else [st.target]):
+                    if isinstance(t, ast.Subscript) and (is_attrs(t.value) or (isinstance(t.value, ast.Name) and t.value.id in aliases)):
+                        bad.append((fn, st, ast.unparse(st)[:60]))
+    fi = ctx.fn("bits.config.Config.load_config")
+    R.check("C20.4", "OWN", fi, "vars(self) is copied before it is overlaid (%d uses in bits.config): unknown keys never become attributes" % n, not bad,
+            "`%s` in %s writes into the object's own attribute dictionary: keys the tool does not define become attributes of the Config object" % (
+                (bad[0][2], bad[0][0].name) if bad else ("", "")), line=bad[0][1].lineno if bad else None,
+            example="a configuration file with an unknown key named like a method, e.g. \"update\"")
 
 
 def _loads(term):
